@@ -219,3 +219,37 @@ Proof.
   split; [apply ht_ws_hypotheses|]. split; [apply regularb_ok; vm_compute; reflexivity|].
   eexists. split; [apply (proj1 ht_ws_prepare)|reflexivity].
 Qed.
+
+(* the NodeWf premise of hier_item_ranges / C13_item_uri_tree holds on the real dumps (C08's predicate, 10 lines) *)
+Ltac wf1 :=
+  unfold NodeWf, SelOK, NameInside, range_wf, lines_le, inside, pos_le;
+  cbn [nrange nkind nchildren nattrs attr_tok attr rstart rend pline pcol trange K_ident N.eqb Pos.eqb];
+  repeat split; intros;
+  repeat match goal with
+         | H : Some _ = Some _ |- _ => inversion H; subst; clear H
+         | H : None = Some _ |- _ => discriminate H
+         | H : _ \/ _ |- _ => destruct H; try discriminate
+         end;
+  cbn [rstart rend pline pcol trange];
+  try discriminate; try lia.
+
+Local Open Scope N_scope.
+Lemma ht_ka_wf : Forall_nodes (NodeWf 10) ht_ka.
+Proof. unfold ht_ka. cbn [Forall_nodes]. repeat match goal with |- _ /\ _ => split | |- True => exact I end; wf1. Qed.
+Lemma ht_kb_wf : Forall_nodes (NodeWf 10) ht_kb.
+Proof. unfold ht_kb. cbn [Forall_nodes]. repeat match goal with |- _ /\ _ => split | |- True => exact I end; wf1. Qed.
+Lemma ht_kc_wf : Forall_nodes (NodeWf 10) ht_kc.
+Proof. unfold ht_kc. cbn [Forall_nodes]. repeat match goal with |- _ /\ _ => split | |- True => exact I end; wf1. Qed.
+
+Example ht_ws_nodewf : Forall (fun d => Forall_nodes (NodeWf 10) (snd d)) ht_ws.
+Proof.
+  constructor; [exact ht_ka_wf|]. constructor; [exact ht_kb_wf|]. constructor; [exact ht_kc_wf|constructor].
+Qed.
+
+(* ... so the conclusion `inside` of hier_item_ranges is obtained THROUGH the theorem on the real trees *)
+Example ht_item_ranges_via_nodewf :
+  forall p it, prepare ht_ws (#"aKb", ht_kb) p = Ans (ROk [it]) -> inside (i_sel it) (i_range it).
+Proof.
+  intros p it H. destruct (hier_item_ranges ht_ws (#"aKb", ht_kb) p it H) as (n & _ & _ & _ & _ & Hw).
+  apply (Hw 10). exact ht_kb_wf.
+Qed.
